@@ -167,6 +167,9 @@ func (x *Exec) ident(e *ast.Ident, st *State) Value {
 		return tNil
 	case *types.Var:
 		if o.Parent() == o.Pkg().Scope() {
+			if v, ok := x.pkgTableValue(o, st); ok {
+				return v
+			}
 			return x.getHeap(st, x.globalKey(o))
 		}
 		v, ok := st.vars[o]
@@ -187,6 +190,89 @@ func (x *Exec) ident(e *ast.Ident, st *State) Value {
 	}
 	x.unsupported(e, "identifier %s (%T)", e.Name, obj)
 	return nil
+}
+
+// pkgTableValue: a package-level table (array / slice / struct built from a composite literal of constants) that no
+// non-test code ever writes, slices or aliases has, at every use, the value of its initialiser.
+func (x *Exec) pkgTableValue(o *types.Var, st *State) (Value, bool) {
+	if o.Pkg() != x.pkg.Types {
+		return nil, false
+	}
+	switch o.Type().Underlying().(type) {
+	case *types.Array, *types.Struct:
+	default:
+		return nil, false // scalars (switches such as enableRecurse, which tests flip), maps, slices, pointers stay symbolic
+	}
+	if x.tableInit == nil {
+		x.tableInit = map[*types.Var]ast.Expr{}
+		for _, f := range x.pkg.Syntax {
+			for _, d := range f.Decls {
+				gd, ok := d.(*ast.GenDecl)
+				if !ok || gd.Tok != token.VAR {
+					continue
+				}
+				for _, sp := range gd.Specs {
+					vs := sp.(*ast.ValueSpec)
+					if len(vs.Values) != len(vs.Names) {
+						continue
+					}
+					for i, n := range vs.Names {
+						if v, ok := x.info.Defs[n].(*types.Var); ok {
+							x.tableInit[v] = vs.Values[i]
+						}
+					}
+				}
+			}
+		}
+	}
+	init, ok := x.tableInit[o]
+	if !ok {
+		return nil, false
+	}
+	if _, written := scanPkgVarWrites(x.prog)[o]; written {
+		return nil, false
+	}
+	var constLit func(e ast.Expr) bool
+	constLit = func(e ast.Expr) bool {
+		e = unparen(e)
+		if tv, ok := x.info.Types[e]; ok && tv.Value != nil {
+			return true
+		}
+		cl, ok := e.(*ast.CompositeLit)
+		if !ok {
+			return false
+		}
+		for _, el := range cl.Elts {
+			if kv, isKV := el.(*ast.KeyValueExpr); isKV {
+				el = kv.Value
+			}
+			if !constLit(el) {
+				return false
+			}
+		}
+		return true
+	}
+	if !constLit(init) {
+		return nil, false
+	}
+	ok2 := true
+	var val Value
+	func() {
+		defer func() {
+			if r := recover(); r != nil {
+				if _, isUnsup := r.(unsupported); isUnsup {
+					ok2 = false
+					return
+				}
+				panic(r)
+			}
+		}()
+		val = x.expr(init, st)
+	}()
+	if !ok2 {
+		return nil, false
+	}
+	return val, true
 }
 
 func (x *Exec) globalKey(v *types.Var) string {
